@@ -98,8 +98,8 @@ func idOf(line []byte) string {
 }
 
 func run(c *Ctx) {
-	c.Res.Rule = "programs of the C01 generator (default global settings, no trace marks), each tagged with a unique id field; payload classes: ordinary, > 500 bytes (pooled buffer grows), > 64 KiB (buffer not returned to the pool); first run alone (reference, model-checked), then every program `rounds` times from G in {2,4,16} goroutines through loggers derived from shared parents into one checksumming/delaying/blocking writer; plus SyncWriter over a non-reentrant writer and the global logger; race detector on. Non-trivial = program with nesting (Dict/Array/Object/hooks) or a grown buffer"
-	c.OpenShards("From Verif Require Import Base.Prelude Base.Decimal Enc.JsonEnc Misc.Level Api.Exec Harness.C01H Harness.C06H.", "c01_case * option bytes", "mismatches c06_run c06_eqb", 300)
+	c.Res.Rule = "programs of the C01 generator (default global settings, no trace marks), each tagged with a unique id field; payload classes: ordinary, > 500 bytes (pooled buffer grows), > 64 KiB (buffer not returned to the pool); first run alone (reference, model-checked), then every program `rounds` times from G in {2,4,16} goroutines through loggers derived from shared parents into one checksumming/delaying/blocking writer; programs a hook or the chain discards stay in the concurrent mix (must write nothing); plus SyncWriter over a non-reentrant writer and the global logger; plus directed sweeps (directed.go): a table of 28 call chains (13 leave per-event state on the pooled Event: stack flag, skip-frame count, context, hooks, Disabled level, grown / oversized buffer; 15 draw pooled events outside a Logger: prebuilt / nested Dict, scratch events of Fields / Errs / Array.Err / Array.Object / Context.Object, Dict().Caller(), GetCtx) under a configured ErrorStackMarshaler, every state-leaving chain run 1..2 times before every other chain on emptied pools (sequential histories) and the whole table from 4 and 16 goroutines, each line compared with the chain alone on emptied pools; scripted schedules under GOMAXPROCS(1): goroutine A parked inside a hook of its event (9 hook orders over discard / add-field / park) while goroutine B completes 1..2 events, or starts an event before and finishes it after A resumes (12 modes); 60 generated programs under Settings with a stack marshaler (a third with Stack().Err, a third with errors inside Dict / Fields / Array) run alone on emptied pools, sequentially with history and from 8 goroutines; race detector on. Non-trivial = program with nesting (Dict/Array/Object/hooks) or a grown buffer"
+	c.OpenShards("From Verif Require Import Base.Prelude Base.Decimal Enc.JsonEnc Misc.Level Api.Exec Harness.C01H Harness.C06H.", "c01_case * option bytes", "mismatches c06_run c06_eqb", 30)
 	nprog := 120
 	rounds := 3
 	if c.Thorough() {
@@ -109,6 +109,7 @@ func run(c *Ctx) {
 	now := time.Unix(1700000000, 5000).UTC()
 	var cases []*progs.Case
 	ref := map[string][]byte{}
+	discarded := map[string]bool{} // programs a hook (or the chain) discards: run concurrently as well, must write nothing
 	for i := 0; i < nprog; i++ {
 		g := &progs.Gen{R: c.R.Fork(), NoMarks: true, S: s, Now: now}
 		cs := g.GenCase(3)
@@ -153,7 +154,12 @@ func run(c *Ctx) {
 			continue
 		}
 		if !o.Written {
-			continue // discarded by a hook; nothing to compare concurrently
+			// discarded by a hook or by the chain: no line to compare, but the chain still runs in the concurrent
+			// mix below (a discarded event must stay silent there too and must not disturb the others)
+			discarded[id] = true
+			cases = append(cases, cs)
+			c.Hist("discarded_programs", "1")
+			continue
 		}
 		ref[id] = o.Line
 		line := "(Some " + CoqBytes(o.Line) + ")"
@@ -210,111 +216,122 @@ func run(c *Ctx) {
 	}
 
 	// ---- concurrent runs ----
-	restore := s.Apply()
-	zerolog.TimestampFunc = func() time.Time { return now }
-	zerolog.SetGlobalLevel(zerolog.Level(-128))
-	for _, G := range []int{2, 4, 16} {
-		w := &sharedWriter{}
-		root := zerolog.New(w).Level(zerolog.Level(-128))
-		// loggers are derived from the shared root before the goroutines start and also inside them
-		loggers := make([]zerolog.Logger, len(cases))
-		for i, cs := range cases {
-			l := root
-			for _, st := range cs.Steps {
-				l = progs.ApplyStep(l, st, w)
-			}
-			loggers[i] = l
-		}
-		var wg sync.WaitGroup
-		var panics int64
-		var pmu sync.Mutex
-		var panicCase *progs.Case
-		var panicVal interface{}
-		stop := make(chan struct{})
-		// a goroutine hammering the atomics behind global level / sampling switch with the values already in force
-		go func() {
-			for {
-				select {
-				case <-stop:
-					return
-				default:
-					zerolog.SetGlobalLevel(zerolog.Level(-128))
-					zerolog.DisableSampling(false)
-					runtime.Gosched()
+	concurrent := func(s progs.Settings, cases []*progs.Case, ref map[string][]byte, discarded map[string]bool, Gs []int) {
+		restore := s.Apply()
+		zerolog.TimestampFunc = func() time.Time { return now }
+		zerolog.SetGlobalLevel(zerolog.Level(-128))
+		for _, G := range Gs {
+			w := &sharedWriter{}
+			root := zerolog.New(w).Level(zerolog.Level(-128))
+			// loggers are derived from the shared root before the goroutines start and also inside them
+			loggers := make([]zerolog.Logger, len(cases))
+			for i, cs := range cases {
+				l := root
+				for _, st := range cs.Steps {
+					l = progs.ApplyStep(l, st, w)
 				}
+				loggers[i] = l
 			}
-		}()
-		for g := 0; g < G; g++ {
-			wg.Add(1)
-			go func(g int) {
-				defer wg.Done()
-				for r := 0; r < rounds; r++ {
-					for i := g; i < len(cases); i += G {
-						cs := cases[(i+r*7)%len(cases)]
-						idx := (i + r*7) % len(cases)
-						l := loggers[idx]
-						if (i+r)%3 == 0 {
-							l = l.With().Logger() // derive a child inside the goroutine as well
-						}
-						func() {
-							defer func() {
-								if r := recover(); r != nil {
-									atomic.AddInt64(&panics, 1)
-									pmu.Lock()
-									if panicCase == nil {
-										panicCase, panicVal = cs, r
-									}
-									pmu.Unlock()
-								}
-							}()
-							e := l.WithLevel(zerolog.Level(cs.Level))
-							progs.ApplyEvent(e, cs.Ops)
-							e.Msg(string(cs.Msg))
-						}()
+			var wg sync.WaitGroup
+			var panics int64
+			var pmu sync.Mutex
+			var panicCase *progs.Case
+			var panicVal interface{}
+			stop := make(chan struct{})
+			// a goroutine hammering the atomics behind global level / sampling switch with the values already in force
+			go func() {
+				for {
+					select {
+					case <-stop:
+						return
+					default:
+						zerolog.SetGlobalLevel(zerolog.Level(-128))
+						zerolog.DisableSampling(false)
+						runtime.Gosched()
 					}
 				}
-			}(g)
-		}
-		wg.Wait()
-		close(stop)
-		if panics != 0 {
-			c.Violate(Violation{Key: "logging-call-panicked", Monitor: "no-panic-concurrent", Desc: fmt.Sprintf("G=%d: %d logging calls panicked while other goroutines were logging (first: %v): pooled buffers are shared between events", G, panics, panicVal), Case: panicCase.Describe()})
-		}
-		if m := atomic.LoadInt64(&w.modified); m != 0 {
-			c.Violate(Violation{Key: "buffer-modified-during-write", Monitor: "checksum-on-entry-and-return", Desc: fmt.Sprintf("%d Write calls saw their argument change before they returned (G=%d)", m, G), Case: map[string]interface{}{"goroutines": G}})
-		}
-		got := map[string]int{}
-		for _, ln := range w.lines {
-			id := idOf(ln)
-			want, ok := ref[id]
-			if !ok {
-				c.Violate(Violation{Key: "unknown-or-torn-line", Monitor: "concurrent-multiset", Desc: fmt.Sprintf("G=%d: a written line carries no known id: %.200q", G, ln), Case: map[string]interface{}{"goroutines": G}})
-				continue
+			}()
+			for g := 0; g < G; g++ {
+				wg.Add(1)
+				go func(g int) {
+					defer wg.Done()
+					for r := 0; r < rounds; r++ {
+						for i := g; i < len(cases); i += G {
+							cs := cases[(i+r*7)%len(cases)]
+							idx := (i + r*7) % len(cases)
+							l := loggers[idx]
+							if (i+r)%3 == 0 {
+								l = l.With().Logger() // derive a child inside the goroutine as well
+							}
+							func() {
+								defer func() {
+									if r := recover(); r != nil {
+										atomic.AddInt64(&panics, 1)
+										pmu.Lock()
+										if panicCase == nil {
+											panicCase, panicVal = cs, r
+										}
+										pmu.Unlock()
+									}
+								}()
+								e := l.WithLevel(zerolog.Level(cs.Level))
+								progs.ApplyEvent(e, cs.Ops)
+								e.Msg(string(cs.Msg))
+							}()
+						}
+					}
+				}(g)
 			}
-			got[id]++
-			if !bytes.Equal(want, ln) {
-				c.Violate(Violation{Key: "line-differs-from-sequential", Monitor: "concurrent-multiset", Desc: fmt.Sprintf("G=%d: event %s written concurrently differs from the same call chain run alone", G, id), Case: map[string]interface{}{"goroutines": G, "id": id}, Observed: fmt.Sprintf("%.300q", ln), Expected: fmt.Sprintf("%.300q", want)})
+			wg.Wait()
+			close(stop)
+			if panics != 0 {
+				c.Violate(Violation{Key: "logging-call-panicked", Monitor: "no-panic-concurrent", Desc: fmt.Sprintf("G=%d: %d logging calls panicked while other goroutines were logging (first: %v): pooled buffers are shared between events", G, panics, panicVal), Case: panicCase.Describe()})
 			}
-		}
-		// each goroutine g runs indices i = g, g+G, ...; every index is run `rounds` times in total (shifted)
-		total := 0
-		for _, n := range got {
-			total += n
-		}
-		expected := 0
-		for g := 0; g < G; g++ {
-			for i := g; i < len(cases); i += G {
-				expected += rounds
+			if m := atomic.LoadInt64(&w.modified); m != 0 {
+				c.Violate(Violation{Key: "buffer-modified-during-write", Monitor: "checksum-on-entry-and-return", Desc: fmt.Sprintf("%d Write calls saw their argument change before they returned (G=%d)", m, G), Case: map[string]interface{}{"goroutines": G}})
 			}
+			got := map[string]int{}
+			for _, ln := range w.lines {
+				id := idOf(ln)
+				want, ok := ref[id]
+				if discarded[id] {
+					c.Violate(Violation{Key: "discarded-event-written", Monitor: "concurrent-multiset", Desc: fmt.Sprintf("G=%d: event %s is discarded (by a hook or in its chain) and writes nothing when run alone, but a line carrying its id reached the writer while other goroutines were logging: %.200q", G, id, ln), Case: map[string]interface{}{"goroutines": G, "id": id, "program": describeByID(cases, id)}})
+					continue
+				}
+				if !ok {
+					c.Violate(Violation{Key: "unknown-or-torn-line", Monitor: "concurrent-multiset", Desc: fmt.Sprintf("G=%d: a written line carries no known id: %.200q", G, ln), Case: map[string]interface{}{"goroutines": G}})
+					continue
+				}
+				got[id]++
+				if !bytes.Equal(want, ln) {
+					c.Violate(Violation{Key: "line-differs-from-sequential", Monitor: "concurrent-multiset", Desc: fmt.Sprintf("G=%d: event %s written concurrently differs from the same call chain run alone", G, id), Case: map[string]interface{}{"goroutines": G, "id": id, "settings": fmt.Sprintf("%+v", s), "program": describeByID(cases, id)}, Observed: fmt.Sprintf("%.300q", ln), Expected: fmt.Sprintf("%.300q", want)})
+				}
+			}
+			// each goroutine g runs indices i = g, g+G, ...; every index is run `rounds` times in total (shifted)
+			total := 0
+			for _, n := range got {
+				total += n
+			}
+			expected := 0 // every program is run once per round (the shift is a permutation); discarded ones write nothing
+			for _, cs := range cases {
+				if !discarded[caseID(cs)] {
+					expected += rounds
+				}
+			}
+			if total != expected {
+				c.Violate(Violation{Key: "write-count", Monitor: "concurrent-multiset", Desc: fmt.Sprintf("G=%d: %d events emitted, %d Write calls with a known id", G, expected, total), Case: map[string]interface{}{"goroutines": G}, Observed: total, Expected: expected})
+			}
+			c.Res.Evaluations += expected
+			c.Hist("goroutines", fmt.Sprint(G))
 		}
-		if total != expected {
-			c.Violate(Violation{Key: "write-count", Monitor: "concurrent-multiset", Desc: fmt.Sprintf("G=%d: %d events emitted, %d Write calls with a known id", G, expected, total), Case: map[string]interface{}{"goroutines": G}, Observed: total, Expected: expected})
-		}
-		c.Res.Evaluations += expected
-		c.Hist("goroutines", fmt.Sprint(G))
+		restore()
+		zerolog.SetGlobalLevel(zerolog.DebugLevel)
 	}
-	restore()
-	zerolog.SetGlobalLevel(zerolog.DebugLevel)
+	// the directed sweeps run first: their witnesses (a two-chain history, a scripted schedule) are the easiest to read
+	scriptedHookInterleavings(c)
+	directedHistories(c)
+	concurrent(s, cases, ref, discarded, []int{2, 4, 16})
+	stackSettingsPrograms(c, now, rounds, concurrent)
 
 	// ---- SyncWriter over a writer that must never be entered twice ----
 	{
@@ -506,6 +523,25 @@ func run(c *Ctx) {
 		}
 		c.Res.ExtraCoverage["race_detector"] = raceEnabled
 	}
+}
+
+// the id every program carries as its first field
+func caseID(cs *progs.Case) string {
+	if len(cs.Ops) > 0 && cs.Ops[0].P != nil {
+		if v, ok := cs.Ops[0].P.V.(string); ok {
+			return v
+		}
+	}
+	return ""
+}
+
+func describeByID(cases []*progs.Case, id string) interface{} {
+	for _, cs := range cases {
+		if caseID(cs) == id {
+			return cs.Describe()
+		}
+	}
+	return nil
 }
 
 func sizeClass(n int) int {
